@@ -21,6 +21,13 @@ def scenario(r, kind):
         qa = {'kind': ('select', [('expr', ('fld', 'a', 0)), ('expr', ('NR',))]), 'where': ('ne', ('fld', 'a', 0), ('lit', 'k')), 'join': None}
     elif kind == 'aggregate':
         qa = {'kind': ('select', [('expr', ('fld', 'a', 0)), ('agg', 'SUM', 'SUM', ('fld', 'a', 1)), ('agg', 'COUNT', 'count', ('lit', 1), 'star')]), 'where': None, 'join': None, 'group': [('fld', 'a', 0)]}
+    elif kind in ('avg_native', 'avg_string'):
+        # numeric aggregates over NATIVE numbers and over numeric STRINGS: whether strings need converting is decided per
+        # aggregator and per query - a decision remembered across queries or threads breaks the later one
+        vals = [r.randint(1, 9) for _ in range(n)]
+        A = [[r.choice(['a', 'b']), (v if kind == 'avg_native' else str(v))] for v in vals]
+        qa = {'kind': ('select', [('expr', ('fld', 'a', 0)), ('agg', 'AVG', 'AVG', ('fld', 'a', 1)), ('agg', 'MAX', 'max', ('fld', 'a', 1))]),
+              'where': None, 'join': None, 'group': [('fld', 'a', 0)]}
     elif kind == 'distinct_order':
         qa = {'kind': ('select', [('expr', ('fld', 'a', 0))]), 'where': None, 'join': None, 'order': ([('fld', 'a', 0)], r.random() < 0.5), 'distinct': 1}
     elif kind == 'join':
@@ -52,7 +59,7 @@ def scenario(r, kind):
     return {'q': c['q'], 'qa': qa, 'A': A, 'B': B, 'kind': kind}
 
 
-KINDS = ['select', 'aggregate', 'distinct_order', 'join', 'update', 'like', 'unnest', 'named', 'named', 'runtime_error', 'parse_error']
+KINDS = ['select', 'aggregate', 'avg_native', 'avg_string', 'distinct_order', 'join', 'update', 'like', 'unnest', 'named', 'named', 'runtime_error', 'parse_error']
 
 
 def solo(queries):
@@ -63,6 +70,74 @@ def solo(queries):
         o = ec.canon_model(m)
         out.append({'events': o['events'], 'error': o['error'], 'pulls': o['pulls']})
     return args, res, out
+
+
+def csv_expect(cases):
+    flat = [q for c in cases for q in c['runs']]
+    mres = lib.run_model(300, [qmodel.enc_run(0, q['qa'], None, q['A'], q['B'], None) for q in flat])
+    k = 0
+    exp = []
+    for c in cases:
+        rs = []
+        for _q in c['runs']:
+            o = ec.canon_model(mres[k])
+            k += 1
+            if o['error'] is not None:
+                rs.append({'rows': None, 'error': o['error']})
+            else:
+                rs.append({'rows': [['' if v is None else str(v) for v in e[1]] for e in o['events'] if e[0] == 'W'], 'error': None})
+        exp.append({'results': rs})
+    return exp
+
+
+def csv_rel(c, e, g):
+    if not isinstance(g, dict) or 'results' not in g or len(g['results']) != len(e['results']):
+        return False
+    for x, y in zip(e['results'], g['results']):
+        if y is None:
+            return False
+        if x['error'] is not None:
+            if y['error'] is None or y['error'][0] != x['error'][0]:
+                return False
+        elif y['error'] is not None or y['rows'] != x['rows']:
+            return False
+    return True
+
+
+def csv_sequences(ctx):
+    """histories through the CSV front-end: each run has its own directory with in.csv and a join file of the SAME relative name"""
+    r = ctx.rng
+    n = 40 if ctx.tier == 'quick' else 3000
+    cases = []
+    flat = []
+    for _ in range(n):
+        runs = []
+        for _k in range(r.randint(2, 4)):
+            A = [[r.choice(['a', 'b', 'k']), str(r.randint(1, 9))] for _ in range(r.randint(1, 3))]
+            B = [[key, 'w%d' % r.randint(0, 99)] for key in r.sample(['a', 'b', 'k'], r.randint(1, 3))]
+            kind = r.random()
+            if kind < 0.2:
+                qa = {'kind': ('select', [('expr', ('int', ('fld', 'a', 0))), ('expr', ('fld', 'b', 1))]), 'where': None,
+                      'join': {'kind': 'inner', 'spelling': 'join', 'lhs': [0], 'rhs': [0]}}
+                q = 'select int(a1), b2 join jt.csv on a1 == b1'
+            else:
+                left = kind < 0.5
+                qa = {'kind': ('select', [('expr', ('fld', 'a', 0)), ('expr', ('fld', 'b', 1))]), 'where': None,
+                      'join': {'kind': 'left' if left else 'inner', 'spelling': 'left join' if left else 'join', 'lhs': [0], 'rhs': [0]}}
+                q = 'select a1, b2 %s jt.csv on a1 == b1' % ('left join' if left else 'join')
+            runs.append({'q': q, 'qa': qa, 'A': A, 'B': B})
+            flat.append(runs[-1])
+        cases.append({'mode': 'csvseq', 'runs': runs})
+    exp = csv_expect(cases)
+    got = lib.run_impl_py('c16', cases, extra_env={'VERIF_SCRATCH': lib.BUILD})
+    ctx.compare(cases, exp, got, THEOREM + ' (CSV front-end histories)', rel=csv_rel,
+                describe=lambda c, e, g: 'query_csv history %s with per-run directories: solo model results %s, implementation %s' % (
+                    [(q['q'], q['A'], q['B']) for q in c['runs']], json.dumps(e)[:400], json.dumps(g)[:400]),
+                corrupt=lambda e: {'results': e['results'] + [None]})
+    ctx.count(len(flat))
+    ctx.stat('csv_history_runs', len(flat))
+    for c in cases:
+        ctx.nontriv(('csvseq', json.dumps([(q['q'], q['A'], q['B']) for q in c['runs']])))
 
 
 def nsteps(o):
@@ -122,6 +197,7 @@ def run(ctx):
                     c['mode'], [q['q'] for q in c['queries']], c.get('schedule'), json.dumps(e)[:300], json.dumps(g)[:400]),
                 corrupt=lambda e: {'results': e['results'] + [None]})
     ctx.cross_check_vm(300, args, mres, n=30)
+    csv_sequences(ctx)
     for c in cases:
         ctx.count()
         ctx.stat(c['mode'])
@@ -136,6 +212,11 @@ def run(ctx):
 
 
 def replay(ctx, case):
+    if case.get('mode') == 'csvseq':
+        got = lib.run_impl_py('c16', [case], shards=1, extra_env={'VERIF_SCRATCH': lib.BUILD})
+        ctx.count()
+        ctx.compare([case], csv_expect([case]), got, THEOREM, rel=csv_rel)
+        return
     _a, _m, so = solo(case['queries'])
     got = lib.run_impl_py('c16', [case], shards=1)
     ctx.count()
